@@ -15,7 +15,7 @@ for seed in "$@"; do
   if ! git -C /tmp/sweep/repo apply "$dst/patch.diff" 2>/dev/null; then
     # the seed was made on an older HEAD of /repo: three-way merge onto the current one
     if git -C /tmp/sweep/repo apply --3way "$dst/patch.diff" 2>/dev/null; then git -C /tmp/sweep/repo reset -q; echo "(applied by 3-way merge onto $(git -C /repo rev-parse --short HEAD))" > "$dst/apply.txt";
-    else echo "$seed: patch does not apply" > "$dst/result.txt"; continue; fi
+    else git -C /tmp/sweep/repo reset -q --hard HEAD; echo "$seed: patch does not apply" > "$dst/result.txt"; continue; fi
   fi
   ( cd /tmp/sweep/sim && cargo build --release --offline 2>&1 | tail -3 ) > "$dst/build.log"
   : > "$dst/result.txt"
